@@ -838,6 +838,12 @@ impl Property for C20 {
                 }
             }
         }
+        {
+            let mut hr = Rng::stream(seed, "huge-ids");
+            if hr.chance(1, 6) {
+                crate::gen::huge_handle_ids(&mut hr, &mut w, &mut []);
+            }
+        }
         let mut r = Rng::stream(seed, "clients");
         let names: Vec<u32> = w.packages.keys().copied().collect();
         let vss: Vec<u32> = w.version_sets.keys().copied().collect();
